@@ -434,7 +434,7 @@ def b_set(ex, pos, kws, st):
                             patterns=[M.has(r, x)]))
         return [(st, T(r, "set"))]
     if h in ("dict", "set"):
-        st.assume(z3.ForAll([x], M.has(r, x) == M.has(z, x), patterns=[M.has(r, x)]),
+        st.assume(z3.ForAll([x], M.has(r, x) == M.has(z, x), patterns=[M.has(r, x), M.has(z, x)]),
                   M.klen(r) == M.klen(z))
         return [(st, T(r, "set"))]
     if h in ("list", "tuple"):
